@@ -1,9 +1,50 @@
-"""C13 — heaps: comparison-site decisions (sift/heapify), index arithmetic,
-handle table coupling / reset / growth, radix-heap bucket coupling, clear completeness.
+"""C13 — heaps: comparison-site decisions (sift/heapify), index arithmetic, handle table coupling / reset / growth,
+radix-heap bucket coupling, clear completeness, and the radix heap evaluated on a small model.
 
-Reporting policy: a violation needs positive evidence (a valuation of a decision table, a CFG path, an evaluated index, a
-scenario) over constructs the rule understands completely.  Where a rule merely fails to find the shape it expects, it
-raises dtable.Undecidable unless the absence holds in a closed world (every operation on the state in question is classified)."""
+Rules
+  HEAP-DECISION   every cmp_ call of sift_up / sift_down / heapify (both d-ary heaps) is tabulated: smaller child selected, the hole
+                  sinks iff child < value, rises iff value < parent (ties free).
+  INDEX-INVERSE   left() / parent() evaluated as index arithmetic: mutually inverse; written-out divisions are (x-1)/arity.
+  HANDLE-COUPLED / HANDLE-RESET / HANDLE-GROW   handles_ follows every change of heap_, is reset before heap_ is replaced, grows
+                  to cover every key (addressable heap).
+  BUILD-REPLACES  build_heap() never appends to the old contents.
+  CLEAR-COMPLETE  clear() / clear_all() write every field the mutators change (structural; the VALUE is CLEAR-STATE's).
+  RADIX-COUPLED   every insertion into / emptying of a bucket has the filled_ bit, a mins_ update and a size_ step on every path
+                  (structural; the VALUES are RADIX-VALUE's).  A comparison of the bucket's size() with a constant that separates 0
+                  from all other sizes counts as the emptiness test; what a helper does on some of its paths only is a 'maybe'.
+  CLZ-WIDTH       W - 1 - clz(v): W is the width of the type clz() really sees (an instantiation of the bucket computation that does not
+                  go through clz() at all is covered by BUCKET-INDEX, which evaluated it).
+  RANK-TABLE      IntegerRank<T>::rank_of_int evaluated for every instantiated T on 0, +-1, min, max, min+1, max-1 and the values around
+                  the powers of two: rank_of_int(x) == x - min (the documented "number of smaller values", equivalently: strictly
+                  monotone with rank_of_int(min) == 0); int_at_rank (where instantiated) is its inverse.
+  BUCKET-INDEX    BucketComputation<Radix, Int>::operator()(x, limit) evaluated for every instantiation on limits and keys limit + d with
+                  d, limit around the powers of the radix and the extremes of Int, against the documented bucket (0 for the limit itself,
+                  else row * (Radix-1) + digit, row = highest radix digit in which x and the limit differ, digit = that digit of x).  A
+                  result that differs is a violation if a necessary condition fails on the evaluated values: bucket < num_buckets,
+                  monotone in the key, distinct keys in distinct first-row buckets, redistribution of a bucket under its minimum moves
+                  every key to an earlier bucket and leaves the later buckets where they are; otherwise "cannot decide".
+  RADIX-VALUE     histories of push / emplace / emplace_keyfirst / top / peak_top_key / pop / swap_top_bucket / clear are evaluated for
+                  every RadixHeap instantiation on a model object; after every operation size_ == number of stored elements, filled_ ==
+                  set of non-empty buckets, mins_[i] == smallest rank in bucket i (so an insertion makes mins_[idx] min(old, rank(key))
+                  and size_ moves by exactly the number of elements inserted / removed).
+  RADIX-ORDER     the same histories seen from outside: top() / peak_top_key() show the smallest key held, pop() removes exactly one and
+                  swap_top_bucket() only elements with that key, nothing else is lost or duplicated, size() / empty() count; undefined
+                  behaviour reached on the model (index outside an array, back() of an empty vector, a vector changed while a range-for
+                  runs over it, shift by the width, find_lsb() of an empty BitArray) is reported here.  Keys include min, max, 0, +-1 of
+                  the key type, equal keys, keys around the powers of the radix; histories are monotone (no key below the last minimum
+                  shown), include clear() in the middle and re-use of a drained bucket.
+  CLEAR-STATE     after clear() in the middle of a history every field of the model object equals what the constructor leaves.
+
+The model (RxExec): the instantiated AST is interpreted on concrete values - integers with the C++ value semantics of an LP64 target
+(every node carries its type: conversions wrap, unsigned arithmetic is modular, shifts are checked against the width), std::vector /
+std::array / std::pair / BitArray as Python objects with their documented interface, member functions / IntegerRank / BucketComputation /
+tlx::clz by evaluating their bodies, lambdas with their captures.  tlx is never compiled or run.  Anything the interpreter does not
+model exactly is dtable.Undecidable.
+
+Reporting policy: a violation needs positive evidence (a valuation of a decision table, a CFG path, an evaluated index, a concrete
+argument / history with the value obtained and the value required) over constructs the rule understands completely.  Where a rule merely
+fails to find the shape it expects, it raises dtable.Undecidable unless the absence holds in a closed world (every operation on the
+state in question is classified)."""
 from engine import ir, dtable, match, cfg as cfgm
 from engine.ir import kids, strip_casts, const_int, ref_of
 
@@ -1385,6 +1426,60 @@ def site_region(fn, c):
     return body
 
 
+def helper_nodes(body):
+    """[(node, conditional)] for the nodes of a loop-free helper; conditional = not evaluated on every path through the helper
+    (inside a branch, behind an early return, right operand of && / ||, arm of ?:)"""
+    out = []
+
+    def expr(e, cond):
+        if e is None:
+            return
+        out.append((e, cond))
+        ch = kids(e)
+        if e["k"] == "ConditionalOperator" and len(ch) == 3:
+            expr(ch[0], cond)
+            expr(ch[1], True)
+            expr(ch[2], True)
+        elif e["k"] == "BinaryOperator" and e.get("op") in ("&&", "||") and len(ch) == 2:
+            expr(ch[0], cond)
+            expr(ch[1], True)
+        else:
+            for c in ch:
+                expr(c, cond)
+        for key in ("init", "condvar"):
+            if isinstance(e.get(key), dict):
+                expr(e[key], cond)
+
+    def stmts(lst, cond):
+        for s in lst:
+            if s is None:
+                continue
+            if s["k"] == "CompoundStmt":
+                out.append((s, cond))
+                cond = stmts(kids(s), cond)
+            elif s["k"] == "IfStmt":
+                out.append((s, cond))
+                for key in ("init", "condvar"):
+                    if isinstance(s.get(key), dict):
+                        expr(s[key], cond)
+                expr(kids(s)[0], cond)
+                for br in kids(s)[1:]:
+                    out.extend((y, True) for y in ir.walk(br))
+                if any(y["k"] in ("ReturnStmt", "BreakStmt", "ContinueStmt", "GotoStmt", "CXXThrowExpr") for br in kids(s)[1:] for y in ir.walk(br)):
+                    cond = True
+            elif s["k"] in ("SwitchStmt", "CXXTryStmt", "LabelStmt", "GotoStmt", "AttributedStmt"):
+                out.extend((y, True) for y in ir.walk(s))
+                cond = True
+            elif s["k"] == "ReturnStmt":
+                expr(s, cond)
+                cond = True
+            else:
+                expr(s, cond)
+        return cond
+    stmts([body], False)
+    return out
+
+
 def expanded(tu, fn, lf):
     """(node, substitution, in_loop, event number) for the nodes a leaf executes, with the bodies of loop-free helpers called
     on *this (one level; parameters stand for the arguments); second result: (call, callee, event number) of the helpers
@@ -1399,11 +1494,12 @@ def expanded(tu, fn, lf):
                     if not y["callee"].get("const"):
                         opaque.append((y, None, ei))
                     continue
-                if any(z["k"] in LOOPS for z in ir.walk(cal.body)) or kind == "loop":
+                if any(z["k"] in LOOPS or z["k"] == "LambdaExpr" for z in ir.walk(cal.body)) or kind == "loop":
                     opaque.append((y, cal, ei))
                     continue
                 sub = {p_["did"]: a for p_, a in zip(cal.params, kids(y)[1:])}
-                out += [(z, sub, False, ei) for z in ir.walk(cal.body)]
+                # what the helper does on some of its paths only is a 'maybe' for the caller (like the body of a loop), never a fact
+                out += [(z, sub, cond, ei) for z, cond in helper_nodes(cal.body)]
                 for c2, cal2 in this_callees(tu, cal):
                     opaque.append((c2, cal2, ei))
     return out, opaque
@@ -1470,6 +1566,15 @@ def radix_site(ck, tu, fn, tag, c, idx, op):
             if bi is not None and match.same_expr(bi, idx):
                 done = any(ev[0] == "expr" and inside(fn, c, ev[1]) for ev in run.events)
                 return ("empty-after" if done else "empty-before", False)
+        # a comparison of the bucket's size() with a constant that separates 0 from every other size is the same test
+        if n["k"] == "BinaryOperator" and n.get("op") in ("==", "!=", "<", ">", "<=", ">="):
+            szs = [y for y in ir.walk(n) if "callee" in y and y["callee"]["name"] == "size" and y.get("member_call") and len(kids(y)) == 1
+                   and bucket_of(fn, kids(y)[0]) is not None and match.same_expr(bucket_of(fn, kids(y)[0]), idx)]
+            if len(szs) == 1:
+                vals = [eval_arith(n, {}, lambda x, k=k: k if same_node(x, szs[0]) else None) for k in (0, 1, 2, 7)]
+                if None not in vals and vals[0] != vals[1] and vals[1] == vals[2] == vals[3]:
+                    done = any(ev[0] == "expr" and inside(fn, c, ev[1]) for ev in run.events)
+                    return ("empty-after" if done else "empty-before", not vals[0])
         return base_atom(n)
     leaves = [lf for lf in dtable.explore(simplify(site_region(fn, c)), atomize, fn)
               if any(kind == "expr" and inside(fn, c, n) for kind, n in leaf_items(lf))]
@@ -2062,41 +2167,1517 @@ def check_clear_complete(ck, tu, rec, const_fields=(), method="clear"):
         ck.guarded(one)
 
 
-def check_rank(ck, tu):
-    """(not part of run(): IntegerRank is enforced by the library's own static_asserts)  rank_of_int / int_at_rank are the
-    identity for unsigned types and the sign-bit flip for signed ones"""
-    for fn in tu.find(name="rank_of_int"):
-        inv = [f for f in tu.find(name="int_at_rank") if f.rtargs == fn.rtargs]
-        if not inv or fn.body is None or inv[0].body is None:
-            continue
-        signed = not fn.rtargs[0].startswith("unsigned")
+# ---------------------------------------------------------------- radix heap: evaluation on a small model
+# The member functions of one RadixHeap instantiation (and IntegerRank / BucketComputation, which they call) are
+# interpreted on concrete values: integers with the value semantics of C++ on an LP64 target (every node carries its
+# type; conversions wrap, unsigned arithmetic is modular), std::vector / std::array / std::pair / BitArray as small Python
+# objects with their documented interface.  No tlx code is executed.  Whatever the interpreter does not model exactly is
+# Undecidable; what it evaluates to undefined behaviour on concrete values (an index outside an array, back() of an empty
+# vector, a shift by the width or more, a container changed while a range-for iterates over it) is positive evidence.
+RX_ITY = {"bool": (0, 1), "char": (-128, 127), "signed char": (-128, 127), "unsigned char": (0, 255),
+          "short": (-2 ** 15, 2 ** 15 - 1), "unsigned short": (0, 2 ** 16 - 1), "int": (-2 ** 31, 2 ** 31 - 1), "unsigned int": (0, 2 ** 32 - 1),
+          "unsigned": (0, 2 ** 32 - 1), "long": (-2 ** 63, 2 ** 63 - 1), "unsigned long": (0, 2 ** 64 - 1), "long long": (-2 ** 63, 2 ** 63 - 1),
+          "unsigned long long": (0, 2 ** 64 - 1)}
+RX_CASTS = ("ImplicitCastExpr", "CStyleCastExpr", "CXXStaticCastExpr", "CXXFunctionalCastExpr", "CXXConstCastExpr")
+RX_WRAPPERS = ("ParenExpr", "ExprWithCleanups", "MaterializeTemporaryExpr", "CXXBindTemporaryExpr", "ConstantExpr", "CXXDefaultInitExpr",
+               "SubstNonTypeTemplateParmExpr")
+RX_LVALUE_CASTS = ("NoOp", "DerivedToBase", "UncheckedDerivedToBase", "LValueToRValue", "ConstructorConversion", "UserDefinedConversion")
+RX_BITARRAY = "tlx::radix_heap_detail::BitArray"
 
-        def xors(f):
-            return [y for y in ir.walk(f.body) if match.binop(y, ("^",)) and strip_casts(y)["k"] == "BinaryOperator"]
-        a, b = xors(fn), xors(inv[0])
-        ident = None
-        for y in ir.walk(fn.body):
-            if y["k"] == "ConditionalOperator":
-                ident = const_int(kids(y)[0])
-        if ident is None:
-            raise dtable.Undecidable("%s: rank_of_int is not of the form  identity ? cast(i) : cast(i) ^ sign_bit" % fn.loc)
-        wrong = None
-        if bool(ident) != (not signed):
-            wrong = "the %s branch is selected for a %s type" % ("identity" if ident else "sign-bit flip", "signed" if signed else "unsigned")
-        elif signed:
-            bits = 8 * {"int": 4, "long": 8, "long long": 8, "short": 2, "signed char": 1, "char": 1}.get(fn.rtargs[0], 0)
-            if len(a) != 1 or len(b) != 1 or not bits:
-                raise dtable.Undecidable("%s: sign-bit flip of rank_of_int / int_at_rank not understood" % fn.loc)
-            for f, xs in ((fn, a), (inv[0], b)):
-                sb = [const_int(z) for z in kids(strip_casts(xs[0])) if const_int(z) is not None]
-                if not sb:
-                    raise dtable.Undecidable("%s: constant of the sign-bit flip not evaluated" % f.loc)
-                if (1 << (bits - 1)) not in sb:
-                    wrong = "%s flips with %#x instead of the sign bit %#x" % (f.name, sb[0], 1 << (bits - 1))
-        if wrong is None:
-            ck.ok("RANK-TABLE", "IntegerRank<%s>" % fn.rtargs[0], "identity for unsigned / sign-bit flip for signed, inverse uses the same constant")
+
+class RxUB(Exception):
+    """the evaluation reached undefined behaviour / a violated documented precondition on concrete values"""
+    def __init__(self, msg, where=""):
+        Exception.__init__(self, msg)
+        self.msg, self.where = msg, where
+
+
+class _RxReturn(Exception):
+    def __init__(self, v):
+        self.v = v
+
+
+class _RxBreak(Exception):
+    pass
+
+
+class _RxContinue(Exception):
+    pass
+
+
+def rx_bare(ty):
+    t = (ty or "").strip()
+    while True:
+        s = t
+        for pre in ("const ", "volatile "):
+            if t.startswith(pre):
+                t = t[len(pre):].strip()
+        for suf in ("&&", "&", " const", " volatile"):
+            if t.endswith(suf):
+                t = t[:-len(suf)].strip()
+        if s == t:
+            return t
+
+
+def rx_is_ref(ty):
+    return (ty or "").rstrip().endswith("&")
+
+
+def rx_targs(ty):
+    """('std::array', ['std::vector<int>', '4']) for 'std::array<std::vector<int>, 4>'; (ty, None) for a plain name"""
+    t = rx_bare(ty)
+    i = t.find("<")
+    if i < 0 or not t.endswith(">"):
+        return t, None
+    args, depth, cur = [], 0, ""
+    for ch in t[i + 1:-1]:
+        if ch == "," and depth == 0:
+            args.append(cur.strip())
+            cur = ""
+            continue
+        depth += ch in "<(["
+        depth -= ch in ">)]"
+        cur += ch
+    if cur.strip():
+        args.append(cur.strip())
+    return t[:i], args
+
+
+def rx_int_arg(s):
+    try:
+        return int((s or "").rstrip("UuLl"))
+    except ValueError:
+        return None
+
+
+def rx_wrap(v, rng):
+    return (v - rng[0]) % (rng[1] - rng[0] + 1) + rng[0]
+
+
+RX_UNINIT = ("uninitialised",)
+
+
+class RxVec:
+    def __init__(self, ety, items=None):
+        self.ety, self.items, self.busy = ety, (items if items is not None else []), 0
+
+
+class RxArr:
+    def __init__(self, ety, items):
+        self.ety, self.items = ety, items
+
+
+class RxPair:
+    def __init__(self, tys, first, second):
+        self.tys, self.first, self.second = tys, first, second
+
+
+class RxBits:
+    def __init__(self, n):
+        self.n, self.bits = n, set()
+
+
+class RxObj:
+    def __init__(self, ty, fields=None):
+        self.ty, self.fields = ty, (fields if fields is not None else {})
+
+
+class RxIter:
+    def __init__(self, cont, pos):
+        self.cont, self.pos = cont, pos
+
+
+class RxLambda:
+    """a closure: the call operator, the captured this, the by-copy captures and the objects the by-reference captures name"""
+    def __init__(self, fn, this, vars_, refs):
+        self.fn, self.this, self.vars, self.refs = fn, this, vars_, refs
+
+
+class RxRef:
+    """what an expression that denotes an object evaluates to before it is read"""
+    def __init__(self, lv):
+        self.lv = lv
+
+
+class RxFrame:
+    def __init__(self, fn, this):
+        self.fn, self.this, self.vars, self.refs = fn, this, {}, {}
+
+
+def rx_copy(v):
+    if isinstance(v, RxVec):
+        return RxVec(v.ety, [rx_copy(x) for x in v.items])
+    if isinstance(v, RxArr):
+        return RxArr(v.ety, [rx_copy(x) for x in v.items])
+    if isinstance(v, RxPair):
+        return RxPair(v.tys, rx_copy(v.first), rx_copy(v.second))
+    if isinstance(v, RxBits):
+        b = RxBits(v.n)
+        b.bits = set(v.bits)
+        return b
+    if isinstance(v, RxObj):
+        return RxObj(v.ty, {k: rx_copy(x) for k, x in v.fields.items()})
+    return v
+
+
+def rx_freeze(v):
+    """a comparable picture of a value"""
+    if isinstance(v, (RxVec, RxArr)):
+        return tuple(rx_freeze(x) for x in v.items)
+    if isinstance(v, RxPair):
+        return (rx_freeze(v.first), rx_freeze(v.second))
+    if isinstance(v, RxBits):
+        return frozenset(v.bits)
+    if isinstance(v, RxObj):
+        return ("object", tuple(sorted((k, rx_freeze(x)) for k, x in v.fields.items())))
+    if isinstance(v, bool):
+        return int(v)
+    return v
+
+
+def rx_default(ty, value_init):
+    """a default-constructed (value_init: value-initialised) object of the type"""
+    t = rx_bare(ty)
+    if t in RX_ITY:
+        return (False if t == "bool" else 0) if value_init else RX_UNINIT
+    head, args = rx_targs(t)
+    if head == "std::vector" and args:
+        return RxVec(args[0])
+    if head == "std::array" and args and len(args) == 2 and rx_int_arg(args[1]) is not None:
+        return RxArr(args[0], [rx_default(args[0], value_init) for _ in range(rx_int_arg(args[1]))])
+    if head == "std::pair" and args and len(args) == 2:
+        return RxPair(args, rx_default(args[0], True), rx_default(args[1], True))
+    if head == RX_BITARRAY and args and rx_int_arg(args[0]) is not None:
+        return RxBits(rx_int_arg(args[0]))
+    if t.startswith("tlx::") and not t.endswith("*"):
+        return RxObj(t)
+    raise dtable.Undecidable("objects of type %s are not modelled" % t)
+
+
+class RxExec:
+    MAX_STEPS = 3000000
+    MAX_LOOP = 5000
+
+    def __init__(self, tu):
+        self.tu = tu
+        self.steps = 0
+        self.depth = 0
+        self.cur = None          # innermost function being evaluated (for messages)
+        self.called = set()      # names of the functions / intrinsics whose bodies were evaluated
+
+    # ---- messages
+    def where(self, n):
+        f = self.cur
+        if f is not None and n is not None and n.get("l") is not None:
+            return f.nloc(n)
+        return f.loc if f is not None else "?"
+
+    def und(self, n, msg):
+        raise dtable.Undecidable("%s: %s (%s)" % (self.where(n), msg, dtable.describe(n)[:70] if n is not None and "k" in n else ""))
+
+    def ub(self, n, msg):
+        raise RxUB(msg + " at %s: %s" % (self.where(n), dtable.describe(n)[:70] if n is not None else ""), self.where(n))
+
+    # ---- integers
+    def conv(self, v, ty):
+        if isinstance(v, (int, bool)):
+            t = rx_bare(ty)
+            if t == "bool":
+                return bool(v)
+            rng = RX_ITY.get(t)
+            if rng is not None:
+                return rx_wrap(int(v), rng)
+        return v
+
+    def fit(self, r, ty, n):
+        """the exact result r of integer arithmetic in the type ty"""
+        rng = RX_ITY.get(rx_bare(ty))
+        if rng is None:
+            self.und(n, "arithmetic in a type that is not modelled: %s" % ty)
+        if rng[0] <= r <= rng[1]:
+            return r
+        if rng[0] == 0:
+            return rx_wrap(r, rng)
+        self.und(n, "signed arithmetic leaves the range of %s (result %d): not modelled" % (rx_bare(ty), r))
+
+    def arith(self, op, a, b, n, ty):
+        if isinstance(a, RxIter) or isinstance(b, RxIter):
+            return self.iter_arith(op, a, b, n)
+        if not isinstance(a, (int, bool)) or not isinstance(b, (int, bool)):
+            self.und(n, "operator %s on values that are not integers" % op)
+        a, b = int(a), int(b)
+        if op in ("<", ">", "<=", ">=", "==", "!="):
+            return {"<": a < b, ">": a > b, "<=": a <= b, ">=": a >= b, "==": a == b, "!=": a != b}[op]
+        if op in ("/", "%"):
+            if b == 0:
+                self.ub(n, "division by zero")
+            q = abs(a) // abs(b) * (1 if (a >= 0) == (b >= 0) else -1)
+            return self.fit(q if op == "/" else a - q * b, ty, n)
+        if op in ("<<", ">>"):
+            rng = RX_ITY.get(rx_bare(ty))
+            if rng is None:
+                self.und(n, "shift in a type that is not modelled: %s" % ty)
+            width = (rng[1] - rng[0]).bit_length()
+            if b < 0 or b >= width:
+                self.ub(n, "shift of a %d-bit value by %d (undefined)" % (width, b))
+            return rx_wrap(a << b, rng) if op == "<<" else a >> b
+        if op in ("&", "|", "^"):
+            rng = RX_ITY.get(rx_bare(ty))
+            if rng is None:
+                self.und(n, "bit operation in a type that is not modelled: %s" % ty)
+            return rx_wrap({"&": a & b, "|": a | b, "^": a ^ b}[op], rng)
+        if op in ("+", "-", "*"):
+            return self.fit({"+": a + b, "-": a - b, "*": a * b}[op], ty, n)
+        self.und(n, "operator %s is not modelled" % op)
+
+    def iter_arith(self, op, a, b, n):
+        if isinstance(a, RxIter) and isinstance(b, RxIter):
+            if a.cont is not b.cont:
+                self.und(n, "iterators into different containers")
+            if op == "-":
+                return a.pos - b.pos
+            if op in ("<", ">", "<=", ">=", "==", "!="):
+                return self.arith(op, a.pos, b.pos, n, "long")
+        if isinstance(a, RxIter) and isinstance(b, int) and op in ("+", "-"):
+            return RxIter(a.cont, a.pos + (b if op == "+" else -b))
+        if isinstance(b, RxIter) and isinstance(a, int) and op == "+":
+            return RxIter(b.cont, b.pos + a)
+        self.und(n, "iterator arithmetic not modelled")
+
+    def truth(self, v, n):
+        if isinstance(v, (int, bool)):
+            return bool(v)
+        self.und(n, "condition on a value that is not an integer")
+
+    # ---- objects
+    def load(self, l, n):
+        kind = l[0]
+        if kind == "var":
+            v = l[1].vars.get(l[2], RX_UNINIT)
+        elif kind == "mem":
+            o = l[1]
+            if isinstance(o, RxPair) and l[2] in ("first", "second"):
+                v = getattr(o, l[2])
+            elif isinstance(o, RxObj) and l[2] in o.fields:
+                v = o.fields[l[2]]
+            else:
+                self.und(n, "member %s of an object that is not modelled" % l[2])
+        elif kind == "elem":
+            v = l[1].items[self.index(l[1], l[2], n)]
         else:
-            ck.violation("RANK-TABLE", fn.qname, fn.rtargs[0].replace(" ", "_"), "key ranking is not the order-preserving sign-bit flip: " + wrong, fn.loc)
+            v = l[1][0]
+        if v is RX_UNINIT:
+            self.und(n, "reads a value that was never written in the model")
+        return v
+
+    def store(self, l, v, n):
+        kind = l[0]
+        if kind == "var":
+            l[1].vars[l[2]] = v
+        elif kind == "mem":
+            o = l[1]
+            if isinstance(o, RxPair) and l[2] in ("first", "second"):
+                setattr(o, l[2], v)
+            elif isinstance(o, RxObj):
+                o.fields[l[2]] = v
+            else:
+                self.und(n, "member %s of an object that is not modelled" % l[2])
+        elif kind == "elem":
+            l[1].items[self.index(l[1], l[2], n)] = v
+        else:
+            l[1][0] = v
+
+    def index(self, cont, i, n):
+        if not isinstance(cont, (RxVec, RxArr)):
+            self.und(n, "subscript of something that is not a vector / array")
+        if not isinstance(i, int) or isinstance(i, bool):
+            self.und(n, "subscript that is not an integer")
+        if i < 0 or i >= len(cont.items):
+            self.ub(n, "index %d outside the %s of %d elements" % (i, "array" if isinstance(cont, RxArr) else "vector", len(cont.items)))
+        return i
+
+    def assign_object(self, dst, src, n):
+        """dst = src for class objects: the identity of dst stays (references to it remain valid)"""
+        if isinstance(dst, RxVec) and isinstance(src, RxVec):
+            self.mutate(dst, n)
+            dst.items = [rx_copy(x) for x in src.items]
+        elif isinstance(dst, RxArr) and isinstance(src, RxArr) and len(dst.items) == len(src.items):
+            dst.items = [rx_copy(x) for x in src.items]
+        elif isinstance(dst, RxPair) and isinstance(src, RxPair):
+            dst.first, dst.second = self.conv(rx_copy(src.first), dst.tys[0]), self.conv(rx_copy(src.second), dst.tys[1])
+        elif isinstance(dst, RxBits) and isinstance(src, RxBits):
+            dst.bits = set(src.bits)
+        elif isinstance(dst, RxObj) and isinstance(src, RxObj):
+            dst.fields = {k: rx_copy(x) for k, x in src.fields.items()}
+        else:
+            self.und(n, "assignment between objects that are not modelled")
+
+    def mutate(self, vec, n):
+        if vec.busy:
+            self.ub(n, "a vector is changed while a range-for iterates over it (its iterators are invalidated)")
+
+    def construct(self, ty, vals, n, value_init=True):
+        t = rx_bare(ty)
+        if t in RX_ITY:
+            if not vals:
+                return rx_default(t, value_init)
+            if len(vals) == 1 and isinstance(vals[0], (int, bool)):
+                return self.conv(vals[0], t)
+            self.und(n, "construction of %s not modelled" % t)
+        head, args = rx_targs(t)
+        if len(vals) == 1 and type(vals[0]) in (RxVec, RxArr, RxBits, RxObj) and head != "std::pair":
+            return rx_copy(vals[0])
+        if head == "std::pair" and args and len(args) == 2:
+            if not vals:
+                return rx_default(t, True)
+            if len(vals) == 1 and isinstance(vals[0], RxPair):
+                a, b = vals[0].first, vals[0].second
+            elif len(vals) == 2:
+                a, b = vals
+            else:
+                self.und(n, "construction of a pair from %d arguments not modelled" % len(vals))
+            out = []
+            for x, aty in zip((a, b), args):
+                if rx_bare(aty) in RX_ITY:
+                    if not isinstance(x, (int, bool)):
+                        self.und(n, "pair member of integer type built from something else")
+                    out.append(self.conv(x, aty))
+                else:
+                    out.append(self.construct(aty, [x], n))
+            return RxPair(args, out[0], out[1])
+        if head == "std::vector" and args:
+            if not vals:
+                return RxVec(args[0])
+            if isinstance(vals[0], int) and not isinstance(vals[0], bool) and len(vals) <= 2 and 0 <= vals[0] <= 4096:
+                return RxVec(args[0], [rx_copy(vals[1]) if len(vals) == 2 else rx_default(args[0], True) for _ in range(vals[0])])
+            self.und(n, "construction of a vector not modelled")
+        if not vals:
+            return rx_default(t, value_init)
+        self.und(n, "construction of %s from %d arguments not modelled" % (t, len(vals)))
+
+    # ---- expressions
+    def ev(self, e, fr):
+        v = self.ev_ref(e, fr)
+        if isinstance(v, RxRef):
+            v = self.load(v.lv, e)
+        return v
+
+    def lv(self, e, fr):
+        v = self.ev_ref(e, fr)
+        if isinstance(v, RxRef):
+            return v.lv
+        return ("tmp", [v])
+
+    def ev_ref(self, e, fr):
+        """value of e, or RxRef for an expression that denotes an object"""
+        self.steps += 1
+        if self.steps > self.MAX_STEPS:
+            self.und(e, "the evaluation does not end within %d steps" % self.MAX_STEPS)
+        if e is None:
+            self.und(e, "missing expression")
+        k = e["k"]
+        if k in ("IntegerLiteral", "CharacterLiteral"):
+            return self.conv(int(e["val"]), e.get("ty"))
+        if k == "CXXBoolLiteralExpr":
+            return bool(e["val"]) if not isinstance(e["val"], str) else e["val"] in ("1", "true", "True")
+        if k == "DeclRefExpr":
+            d = e["ref"]["id"]
+            if d in fr.refs:
+                return RxRef(fr.refs[d])
+            if d in fr.vars:
+                return RxRef(("var", fr, d))
+            if "cval" in e:
+                return self.conv(int(e["cval"]), e.get("ty"))
+            self.und(e, "value of %s is not known" % e["ref"].get("name"))
+        if "cval" in e and k != "MemberExpr":
+            return self.conv(int(e["cval"]), e.get("ty"))
+        if k in RX_WRAPPERS:
+            if not kids(e):
+                self.und(e, "empty wrapper")
+            return self.ev_ref(kids(e)[0], fr)
+        if k == "This":
+            if fr.this is None:
+                self.und(e, "this outside a member function")
+            return fr.this
+        if k == "MemberExpr":
+            if not kids(e):
+                if "cval" in e:
+                    return self.conv(int(e["cval"]), e.get("ty"))
+                self.und(e, "member without object")
+            if e.get("static") and "cval" in e:
+                return self.conv(int(e["cval"]), e.get("ty"))
+            obj = self.ev(kids(e)[0], fr)
+            if isinstance(obj, tuple) and obj and obj[0] == "ptr":
+                obj = self.load(obj[1], e)
+            elif isinstance(obj, RxIter) and e.get("arrow"):
+                obj = self.load(("elem", obj.cont, obj.pos), e)
+            if not isinstance(obj, (RxObj, RxPair)):
+                self.und(e, "member of an object that is not modelled")
+            return RxRef(("mem", obj, e["member"]))
+        if k in RX_CASTS:
+            cast = e.get("cast")
+            ch = kids(e)[0] if kids(e) else None
+            if cast == "ToVoid":
+                self.ev(ch, fr)
+                return None
+            tb = rx_bare(e.get("ty"))
+            if tb in RX_ITY:
+                v = self.ev(ch, fr)
+                if not isinstance(v, (int, bool)):
+                    self.und(e, "conversion of something that is not an integer to %s" % tb)
+                return self.conv(v, tb)
+            if cast in RX_LVALUE_CASTS or cast is None:
+                return self.ev_ref(ch, fr)
+            self.und(e, "cast %s not modelled" % cast)
+        if k == "UnaryOperator":
+            return self.unary(e, fr)
+        if k == "BinaryOperator":
+            return self.binary(e, fr)
+        if k == "CompoundAssignOperator":
+            l = self.lv(kids(e)[0], fr)
+            a, b = self.load(l, e), self.ev(kids(e)[1], fr)
+            if isinstance(a, RxIter):
+                r = self.iter_arith(e["op"][:-1], a, b, e)
+            else:
+                cty = e.get("cty") or e.get("ty")
+                r = self.conv(self.arith(e["op"][:-1], self.conv(a, cty), b, e, cty), kids(e)[0].get("ty"))
+            self.store(l, r, e)
+            return RxRef(l)
+        if k == "ConditionalOperator":
+            c = self.truth(self.ev(kids(e)[0], fr), e)
+            return self.ev_ref(kids(e)[1] if c else kids(e)[2], fr)
+        if k in ("CXXConstructExpr", "CXXTemporaryObjectExpr"):
+            args = [a for a in kids(e) if a is not None and a["k"] != "DefaultArg"]
+            if len(args) != len([a for a in kids(e) if a is not None]):
+                self.und(e, "construction with default arguments not modelled")
+            return self.construct(e.get("ty"), [self.ev(a, fr) for a in args], e, value_init=(k != "CXXConstructExpr"))
+        if k == "InitListExpr":
+            return self.construct(e.get("ty"), [self.ev(a, fr) for a in kids(e) if a is not None], e)
+        if k == "CXXScalarValueInitExpr":
+            return rx_default(e.get("ty"), True)
+        if k == "LambdaExpr":
+            f = self.tu.by_did.get(e.get("fn"))
+            if f is None or f.body is None:
+                self.und(e, "body of the lambda is not available")
+            this, vars_, refs = None, {}, {}
+            for c in e.get("captures") or []:
+                if c.get("name") == "this":
+                    this = fr.this
+                elif c.get("id") is None:
+                    self.und(e, "capture of the lambda not understood")
+                elif c.get("byref"):
+                    refs[c["id"]] = fr.refs[c["id"]] if c["id"] in fr.refs else ("var", fr, c["id"])
+                else:
+                    vars_[c["id"]] = rx_copy(self.load(fr.refs[c["id"]] if c["id"] in fr.refs else ("var", fr, c["id"]), e))
+            return RxLambda(f, this, vars_, refs)
+        if "callee" in e:
+            return self.call(e, fr)
+        self.und(e, "expression of kind %s not modelled" % k)
+
+    def unary(self, e, fr):
+        op = e.get("op")
+        ch = kids(e)[0]
+        if op in ("++", "--"):
+            l = self.lv(ch, fr)
+            old = self.load(l, e)
+            if isinstance(old, RxIter):
+                new = RxIter(old.cont, old.pos + (1 if op == "++" else -1))
+            elif isinstance(old, int) and not isinstance(old, bool):
+                new = self.fit(old + (1 if op == "++" else -1), ch.get("ty") or e.get("ty"), e)
+            else:
+                self.und(e, "%s of something that is not an integer" % op)
+            self.store(l, new, e)
+            return old if e.get("postfix") else RxRef(l)
+        if op == "*":
+            p = self.ev(ch, fr)
+            if isinstance(p, RxIter):
+                return RxRef(("elem", p.cont, p.pos))
+            if isinstance(p, tuple) and p and p[0] == "ptr":
+                return RxRef(p[1])
+            if isinstance(p, RxObj) and strip_casts(ch)["k"] == "This":
+                return p
+            self.und(e, "dereference not modelled")
+        if op == "&":
+            return ("ptr", self.lv(ch, fr))
+        v = self.ev(ch, fr)
+        if op == "!":
+            return not self.truth(v, e)
+        if not isinstance(v, (int, bool)):
+            self.und(e, "unary %s on something that is not an integer" % op)
+        if op == "-":
+            return self.fit(-int(v), e.get("ty"), e)
+        if op == "~":
+            return self.conv(~int(v), e.get("ty"))
+        if op == "+":
+            return int(v)
+        self.und(e, "unary %s not modelled" % op)
+
+    def binary(self, e, fr):
+        op = e["op"]
+        a, b = kids(e)
+        if op == "=":
+            v = self.ev(b, fr)
+            l = self.lv(a, fr)
+            if type(v) in (RxVec, RxArr, RxPair, RxBits, RxObj):
+                self.assign_object(self.load(l, e), v, e)
+            else:
+                self.store(l, v, e)
+            return RxRef(l)
+        if op == ",":
+            self.ev(a, fr)
+            return self.ev_ref(b, fr)
+        if op == "&&":
+            return self.truth(self.ev(a, fr), e) and self.truth(self.ev(b, fr), e)
+        if op == "||":
+            return self.truth(self.ev(a, fr), e) or self.truth(self.ev(b, fr), e)
+        x, y = self.ev(a, fr), self.ev(b, fr)
+        if op in ("==", "!=") and type(x) is RxPair and type(y) is RxPair:
+            return (rx_freeze(x) == rx_freeze(y)) == (op == "==")
+        # the type the operation is carried out in: that of the (converted) left operand for shifts and comparisons
+        ty = a.get("ty") if op in ("<<", ">>", "<", ">", "<=", ">=", "==", "!=") else e.get("ty")
+        return self.arith(op, x, y, e, ty)
+
+    # ---- calls
+    def callee_fn(self, e):
+        f = self.tu.by_did.get(e["callee"].get("did"))
+        return f if f is not None and f.body is not None else None
+
+    def call(self, e, fr):
+        name = e["callee"]["name"]
+        args = [a for a in kids(e)]
+        if any(a is None or a["k"] == "DefaultArg" for a in args):
+            self.und(e, "call with default arguments not modelled")
+        if e["k"] == "CXXOperatorCallExpr":
+            return self.op_call(e, fr, e.get("op"), args)
+        if e.get("member_call"):
+            if not args:
+                self.und(e, "member call without object")
+            if strip_casts(args[0])["k"] == "This":
+                f = self.callee_fn(e)
+                if f is None:
+                    self.und(e, "body of %s() is not available" % name)
+                return self.invoke(f, fr.this, [("node", a) for a in args[1:]], fr, e)
+            obj = self.ev(args[0], fr)
+            if isinstance(obj, tuple) and obj and obj[0] == "ptr":
+                obj = self.load(obj[1], e)
+            elif isinstance(obj, RxIter) and e.get("arrow"):
+                obj = self.load(("elem", obj.cont, obj.pos), e)          # p->f() through a pointer / iterator into a container
+            return self.method(e, fr, obj, name, args[1:])
+        f = self.callee_fn(e)
+        if f is not None and f.kind not in ("ctor", "dtor", "lambda"):
+            return self.invoke(f, None, [("node", a) for a in args], fr, e)
+        q = e["callee"].get("qname") or name
+        std = q.startswith("std::") or q == name
+        if std and name in ("move", "forward", "as_const") and len(args) == 1:
+            r = self.ev_ref(args[0], fr)
+            v = self.load(r.lv, e) if isinstance(r, RxRef) else r
+            if name == "move" and isinstance(v, (RxVec, RxArr)):
+                self.und(e, "a whole container is moved from: the state it is left in is unspecified, not modelled")
+            return r
+        if std and name in ("min", "max") and len(args) == 2:
+            x, y = self.ev(args[0], fr), self.ev(args[1], fr)
+            if not isinstance(x, (int, bool)) or not isinstance(y, (int, bool)):
+                self.und(e, "std::%s of values that are not integers" % name)
+            # std::min(a, b) is b only if b < a; std::max(a, b) is b only if a < b
+            return (y if y < x else x) if name == "min" else (y if x < y else x)
+        if std and name == "fill" and len(args) == 3:
+            a, b, v = self.ev(args[0], fr), self.ev(args[1], fr), self.ev(args[2], fr)
+            if not (isinstance(a, RxIter) and isinstance(b, RxIter) and a.cont is b.cont):
+                self.und(e, "std::fill over something that is not a modelled container")
+            for i in range(a.pos, b.pos):
+                self.store(("elem", a.cont, i), rx_copy(v), e)
+            return None
+        if std and name == "for_each" and len(args) == 3:
+            a, b, f = self.ev(args[0], fr), self.ev(args[1], fr), self.ev(args[2], fr)
+            if not (isinstance(a, RxIter) and isinstance(b, RxIter) and a.cont is b.cont and isinstance(f, RxLambda)):
+                self.und(e, "std::for_each over something that is not a modelled container / with something that is not a lambda")
+            if isinstance(a.cont, RxVec):
+                a.cont.busy += 1
+            try:
+                for i in range(a.pos, b.pos):
+                    self.invoke(f.fn, f.this, [("lv", ("elem", a.cont, self.index(a.cont, i, e)))], fr, e, closure=f)
+            finally:
+                if isinstance(a.cont, RxVec):
+                    a.cont.busy -= 1
+            return f
+        if std and name == "fill_n" and len(args) == 3:
+            a, cnt, v = self.ev(args[0], fr), self.ev(args[1], fr), self.ev(args[2], fr)
+            if not (isinstance(a, RxIter) and isinstance(cnt, int)):
+                self.und(e, "std::fill_n over something that is not a modelled container")
+            for i in range(a.pos, a.pos + cnt):
+                self.store(("elem", a.cont, i), rx_copy(v), e)
+            return RxIter(a.cont, a.pos + cnt)
+        if std and name == "swap" and len(args) == 2:
+            la, lb = self.lv(args[0], fr), self.lv(args[1], fr)
+            self.swap(la, lb, e)
+            return None
+        if std and name == "make_pair" and len(args) == 2:
+            return self.construct(e.get("ty"), [self.ev(args[0], fr), self.ev(args[1], fr)], e)
+        if name.startswith("__builtin_"):
+            return self.builtin(e, fr, name, args)
+        self.und(e, "call of %s() not modelled" % q)
+
+    def swap(self, la, lb, n):
+        a, b = self.load(la, n), self.load(lb, n)
+        if isinstance(a, RxVec) and isinstance(b, RxVec):
+            self.mutate(a, n)
+            self.mutate(b, n)
+            a.items, b.items = b.items, a.items
+        elif type(a) in (RxArr, RxPair, RxBits, RxObj) or type(b) in (RxArr, RxPair, RxBits, RxObj):
+            if type(a) is not type(b):
+                self.und(n, "swap of different kinds of objects")
+            ca = rx_copy(a)
+            self.assign_object(a, b, n)
+            self.assign_object(b, ca, n)
+        else:
+            self.store(la, b, n)
+            self.store(lb, a, n)
+
+    def builtin(self, e, fr, name, args):
+        base = name.rstrip("l")
+        suf = name[len(base):]
+        if base not in ("__builtin_clz", "__builtin_ctz", "__builtin_ffs", "__builtin_popcount") or suf not in ("", "l", "ll") or len(args) != 1:
+            self.und(e, "intrinsic %s not modelled" % name)
+        v = self.ev(args[0], fr)
+        if not isinstance(v, (int, bool)):
+            self.und(e, "intrinsic on something that is not an integer")
+        self.called.add(name)
+        w = 32 if suf == "" else 64
+        u = int(v) % (1 << w)
+        if base in ("__builtin_clz", "__builtin_ctz") and u == 0:
+            self.ub(e, "%s(0) is undefined" % name)
+        if base == "__builtin_clz":
+            return w - u.bit_length()
+        if base == "__builtin_ctz":
+            return (u & -u).bit_length() - 1
+        if base == "__builtin_ffs":
+            return 0 if u == 0 else (u & -u).bit_length()
+        return bin(u).count("1")
+
+    def op_call(self, e, fr, op, args):
+        if op == "()":
+            obj = self.ev(args[0], fr)
+            if isinstance(obj, RxLambda):
+                return self.invoke(obj.fn, obj.this, [("node", a) for a in args[1:]], fr, e, closure=obj)
+            f = self.callee_fn(e)
+            if not isinstance(obj, RxObj) or f is None or f.kind == "lambda":
+                self.und(e, "call of a function object that is not modelled")
+            return self.invoke(f, obj, [("node", a) for a in args[1:]], fr, e)
+        if op == "[]" and len(args) == 2:
+            obj, i = self.ev(args[0], fr), self.ev(args[1], fr)
+            if isinstance(obj, RxIter):
+                return RxRef(("elem", obj.cont, self.index(obj.cont, obj.pos + i, e)))
+            return RxRef(("elem", obj, self.index(obj, i, e)))
+        if op == "=" and len(args) == 2:
+            l = self.lv(args[0], fr)
+            self.assign_object(self.load(l, e), self.ev(args[1], fr), e)
+            return RxRef(l)
+        if op == "*" and len(args) == 1:
+            p = self.ev(args[0], fr)
+            if isinstance(p, RxIter):
+                return RxRef(("elem", p.cont, p.pos))
+        if op in ("++", "--"):
+            l = self.lv(args[0], fr)
+            old = self.load(l, e)
+            if isinstance(old, RxIter):
+                new = RxIter(old.cont, old.pos + (1 if op == "++" else -1))
+                self.store(l, new, e)
+                return old if len(args) == 2 else RxRef(l)
+        if op in ("+=", "-=") and len(args) == 2:
+            l = self.lv(args[0], fr)
+            old, d = self.load(l, e), self.ev(args[1], fr)
+            if isinstance(old, RxIter) and isinstance(d, int):
+                self.store(l, RxIter(old.cont, old.pos + (d if op == "+=" else -d)), e)
+                return RxRef(l)
+        if op in ("==", "!=", "<", ">", "<=", ">=", "+", "-") and len(args) == 2:
+            x, y = self.ev(args[0], fr), self.ev(args[1], fr)
+            if isinstance(x, RxIter) or isinstance(y, RxIter):
+                return self.iter_arith(op, x, y, e)
+            if op in ("==", "!=") and type(x) is type(y) and type(x) in (RxPair, RxVec, RxArr):
+                return (rx_freeze(x) == rx_freeze(y)) == (op == "==")
+        self.und(e, "overloaded operator %s not modelled" % op)
+
+    def method(self, e, fr, obj, name, args):
+        """the documented interface of std::vector / std::array / BitArray on the model objects"""
+        n = len(args)
+        if isinstance(obj, (RxVec, RxArr)):
+            items = obj.items
+            if name == "size" and n == 0:
+                return len(items)
+            if name == "empty" and n == 0:
+                return not items
+            if name in ("begin", "cbegin") and n == 0:
+                return RxIter(obj, 0)
+            if name in ("end", "cend") and n == 0:
+                return RxIter(obj, len(items))
+            if name in ("back", "front") and n == 0:
+                if not items:
+                    self.ub(e, "%s() of an empty %s" % (name, "vector" if isinstance(obj, RxVec) else "array"))
+                return RxRef(("elem", obj, len(items) - 1 if name == "back" else 0))
+            if name in ("operator[]", "at") and n == 1:
+                i = self.ev(args[0], fr)
+                if name == "at" and isinstance(i, int) and not 0 <= i < len(items):
+                    self.und(e, "at() throws: exceptions are not modelled")
+                return RxRef(("elem", obj, self.index(obj, i, e)))
+        if isinstance(obj, RxArr):
+            if name == "fill" and n == 1:
+                v = self.ev(args[0], fr)
+                obj.items = [rx_copy(v) for _ in obj.items]
+                return None
+            if name == "max_size" and n == 0:
+                return len(obj.items)
+            if name == "data" and n == 0:
+                return RxIter(obj, 0)
+        if isinstance(obj, RxVec):
+            if name == "push_back" and n == 1:
+                v = self.ev(args[0], fr)
+                self.mutate(obj, e)
+                obj.items.append(self.construct(obj.ety, [v], e))
+                return None
+            if name == "emplace_back":
+                vals = [self.ev(a, fr) for a in args]
+                self.mutate(obj, e)
+                obj.items.append(self.construct(obj.ety, vals, e))
+                return RxRef(("elem", obj, len(obj.items) - 1))
+            if name == "pop_back" and n == 0:
+                if not obj.items:
+                    self.ub(e, "pop_back() of an empty vector")
+                self.mutate(obj, e)
+                obj.items.pop()
+                return None
+            if name == "clear" and n == 0:
+                self.mutate(obj, e)
+                obj.items = []
+                return None
+            if name == "swap" and n == 1:
+                other = self.ev(args[0], fr)
+                if not isinstance(other, RxVec):
+                    self.und(e, "swap with something that is not a vector")
+                self.mutate(obj, e)
+                self.mutate(other, e)
+                obj.items, other.items = other.items, obj.items
+                return None
+            if name in ("reserve", "shrink_to_fit"):
+                for a in args:
+                    self.ev(a, fr)
+                self.mutate(obj, e)
+                return None
+            if name == "capacity" and n == 0:
+                self.und(e, "capacity() is not modelled")
+        if isinstance(obj, RxBits):
+            if name in ("set_bit", "clear_bit", "is_set") and n == 1:
+                i = self.ev(args[0], fr)
+                if not isinstance(i, int) or isinstance(i, bool):
+                    self.und(e, "bit index that is not an integer")
+                if i < 0 or i >= obj.n:
+                    self.ub(e, "bit %d outside the BitArray of %d bits" % (i, obj.n))
+                if name == "is_set":
+                    return i in obj.bits
+                (obj.bits.add if name == "set_bit" else obj.bits.discard)(i)
+                return None
+            if name == "clear_all" and n == 0:
+                obj.bits.clear()
+                return None
+            if name == "empty" and n == 0:
+                return not obj.bits
+            if name == "find_lsb" and n == 0:
+                if not obj.bits:
+                    self.ub(e, "find_lsb() of an empty BitArray (result undefined)")
+                return min(obj.bits)
+        if isinstance(obj, RxObj):
+            f = self.callee_fn(e)
+            if f is not None and f.kind not in ("ctor", "dtor", "lambda"):
+                return self.invoke(f, obj, [("node", a) for a in args], fr, e)
+        if isinstance(obj, RxPair) and name == "swap" and n == 1:
+            other = self.ev(args[0], fr)
+            if isinstance(other, RxPair):
+                c = rx_copy(obj)
+                self.assign_object(obj, other, e)
+                self.assign_object(other, c, e)
+                return None
+        self.und(e, "member function %s() of this kind of object is not modelled" % name)
+
+    def invoke(self, fn, this, args, fr=None, site=None, closure=None):
+        """evaluates the body of fn; args: ('node', expression of the caller) | ('val', value) | ('lv', object of the model)"""
+        if fn.body is None:
+            self.und(site, "body of %s() is not available" % fn.name)
+        if self.depth > 40:
+            self.und(site, "call depth exceeded (recursion?)")
+        if len(args) != len(fn.params):
+            self.und(site, "%s() called with %d arguments for %d parameters" % (fn.name, len(args), len(fn.params)))
+        self.called.add(fn.name)
+        nf = RxFrame(fn, this)
+        if closure is not None:
+            nf.vars.update({k_: rx_copy(v_) for k_, v_ in closure.vars.items()})
+            nf.refs.update(closure.refs)
+        for p, a in zip(fn.params, args):
+            pty = p.get("ty") or ""
+            if a[0] == "lv":
+                if rx_is_ref(pty):
+                    nf.refs[p["did"]] = a[1]
+                else:
+                    nf.vars[p["did"]] = self.conv(rx_copy(self.load(a[1], site)), pty)
+            elif a[0] == "val":
+                if rx_is_ref(pty):
+                    nf.refs[p["did"]] = ("tmp", [a[1]])
+                else:
+                    nf.vars[p["did"]] = self.conv(a[1], pty)
+            elif rx_is_ref(pty):
+                nf.refs[p["did"]] = self.lv(a[1], fr)
+            else:
+                nf.vars[p["did"]] = self.conv(rx_copy(self.ev(a[1], fr)), pty)
+        saved = self.cur
+        self.cur = fn
+        self.depth += 1
+        try:
+            if fn.kind == "ctor":
+                self.ctor_inits(fn, nf)
+            self.stmt(fn.body, nf)
+            ret = None
+        except _RxReturn as r:
+            ret = r.v
+        finally:
+            self.depth -= 1
+            self.cur = saved
+        return ret
+
+    def ctor_inits(self, fn, fr):
+        for i in fn.inits:
+            if i.get("field") is None or i.get("e") is None:
+                self.und(fn.body, "initialiser of the constructor not understood")
+            fr.this.fields[i["field"]] = rx_copy(self.ev(i["e"], fr))
+
+    # ---- statements
+    def stmt(self, s, fr):
+        if s is None:
+            return
+        self.steps += 1
+        if self.steps > self.MAX_STEPS:
+            self.und(s, "the evaluation does not end within %d steps" % self.MAX_STEPS)
+        k = s["k"]
+        if k == "CompoundStmt":
+            for c in kids(s):
+                self.stmt(c, fr)
+        elif k == "DeclStmt":
+            for v in kids(s):
+                if v is None or v["k"] != "VarDecl":
+                    if v is not None and v["k"] in ("TypedefDecl", "TypeAliasDecl", "StaticAssertDecl", "UsingDecl"):
+                        continue
+                    self.und(s, "declaration not modelled")
+                self.declare(v, fr)
+        elif k == "VarDecl":
+            self.declare(s, fr)
+        elif k == "IfStmt":
+            if isinstance(s.get("init"), dict):
+                self.stmt(s["init"], fr)
+            if isinstance(s.get("condvar"), dict):
+                self.und(s, "condition variable not modelled")
+            c = self.truth(self.ev(kids(s)[0], fr), s)
+            self.stmt(kids(s)[1] if c else (kids(s)[2] if len(kids(s)) > 2 else None), fr)
+        elif k in ("ForStmt", "WhileStmt", "DoStmt"):
+            init, cond, inc, body = match.loop_parts(s)
+            if isinstance(s.get("condvar"), dict):
+                self.und(s, "condition variable not modelled")
+            if init is not None:
+                self.stmt(init, fr)
+            first = k == "DoStmt"
+            for _ in range(self.MAX_LOOP):
+                if not first and cond is not None and not self.truth(self.ev(cond, fr), s):
+                    break
+                first = False
+                try:
+                    self.stmt(body, fr)
+                except _RxBreak:
+                    break
+                except _RxContinue:
+                    pass
+                if inc is not None:
+                    self.ev(inc, fr)
+            else:
+                self.und(s, "loop does not end within %d rounds on the model" % self.MAX_LOOP)
+        elif k == "CXXForRangeStmt":
+            rng, var, body = (kids(s) + [None, None, None])[:3]
+            if var is None or var["k"] != "VarDecl":
+                self.und(s, "range-for without loop variable")
+            cont = self.ev(rng, fr)
+            if not isinstance(cont, (RxVec, RxArr)):
+                self.und(s, "range-for over something that is not a vector / array")
+            if isinstance(cont, RxVec):
+                cont.busy += 1
+            try:
+                i = 0
+                while i < len(cont.items):
+                    if rx_is_ref(var.get("ty")) or var.get("isref"):
+                        fr.refs[var["did"]] = ("elem", cont, i)
+                    else:
+                        fr.vars[var["did"]] = rx_copy(cont.items[i])
+                    try:
+                        self.stmt(body, fr)
+                    except _RxBreak:
+                        break
+                    except _RxContinue:
+                        pass
+                    i += 1
+                    if i > self.MAX_LOOP:
+                        self.und(s, "loop does not end on the model")
+            finally:
+                if isinstance(cont, RxVec):
+                    cont.busy -= 1
+        elif k == "ReturnStmt":
+            if not kids(s) or kids(s)[0] is None:
+                raise _RxReturn(None)
+            if rx_is_ref(fr.fn.d.get("ret")):
+                raise _RxReturn(RxRef(self.lv(kids(s)[0], fr)))
+            raise _RxReturn(rx_copy(self.ev(kids(s)[0], fr)))
+        elif k == "BreakStmt":
+            raise _RxBreak()
+        elif k == "ContinueStmt":
+            raise _RxContinue()
+        elif k == "NullStmt":
+            pass
+        elif k == "AttributedStmt":
+            for c in kids(s):
+                self.stmt(c, fr)
+        elif k in ("SwitchStmt", "GotoStmt", "LabelStmt", "CXXTryStmt", "CXXThrowExpr", "GCCAsmStmt", "MSAsmStmt", "CoroutineBodyStmt"):
+            self.und(s, "%s not modelled" % k)
+        else:
+            self.ev(s, fr)
+
+    def declare(self, v, fr):
+        ty = v.get("ty") or ""
+        init = kids(v)[0] if kids(v) else None
+        if v.get("static"):
+            self.und(v, "static local not modelled")
+        if v.get("isref") or rx_is_ref(ty):
+            if init is None:
+                self.und(v, "reference without initialiser")
+            fr.vars.pop(v["did"], None)
+            fr.refs[v["did"]] = self.lv(init, fr)
+            return
+        fr.refs.pop(v["did"], None)
+        if init is None:
+            fr.vars[v["did"]] = rx_default(ty, False)
+        else:
+            fr.vars[v["did"]] = self.conv(rx_copy(self.ev(init, fr)), ty)
+
+
+# ---- the key types
+def rx_key_range(ty):
+    t = rx_bare(ty)
+    rng = RX_ITY.get(t)
+    if rng is None or t == "bool":
+        raise dtable.Undecidable("key type %s is not an integer type the model knows" % t)
+    return rng
+
+
+def rx_guard(ck, rule, fn, sig, thunk):
+    """runs an evaluation; undefined behaviour reached on concrete values is reported as a violation of the rule"""
+    try:
+        return thunk()
+    except RxUB as u:
+        ck.violation(rule, fn.qname, sig + ":undefined", "the evaluation on concrete values reaches undefined behaviour: " + u.msg, u.where or fn.loc)
+        return None
+
+
+# ---------------------------------------------------------------- IntegerRank
+def rank_family(rng):
+    lo, hi = rng
+    fam = {0, 1, lo, hi, lo + 1, hi - 1, (lo + hi) // 2, (lo + hi) // 2 + 1, hi // 2, hi // 2 + 1}
+    if lo < 0:
+        fam |= {-1, -2, lo // 2, lo // 2 - 1}
+    b = 1
+    while b <= hi:
+        fam |= {b - 1, b, b + 1, -b, -b - 1, -b + 1}
+        b <<= 1
+    return sorted(x for x in fam if lo <= x <= hi)
+
+
+def check_rank(ck, tu):
+    """RANK-TABLE: rank_of_int(x) of every instantiated IntegerRank<T> is evaluated for 0, 1, -1, the extremes of T and their
+    neighbours and the values around every power of two: it must be the number of values of T smaller than x (x - min; this
+    is the documented definition and, the rank type having as many values as T, the only strictly monotone map), so that
+    rank_of_int(min) == 0 and x < y implies rank(x) < rank(y); int_at_rank, where instantiated, must be its inverse."""
+    n = 0
+    ranks = tu.find(name="rank_of_int", record="tlx::radix_heap_detail::IntegerRank")
+    invs = tu.find(name="int_at_rank", record="tlx::radix_heap_detail::IntegerRank")
+    for fn in ranks + [f for f in invs if not any(r.rtargs == f.rtargs for r in ranks)]:
+        def one(fn=fn):
+            T = fn.rtargs[0] if fn.rtargs else None
+            rng = rx_key_range(T)
+            tag = "IntegerRank<%s>" % T
+            rf = fn if fn.name == "rank_of_int" else None
+            inv = [f for f in invs if f.rtargs == fn.rtargs]
+            ck.require(len(inv) <= 1 and len([r for r in ranks if r.rtargs == fn.rtargs]) <= 1, "%s: several rank_of_int / int_at_rank in one instantiation" % fn.loc)
+            inv = inv[0] if inv else None
+            for f in (rf, inv):
+                ck.require(f is None or (len(f.params) == 1 and f.body is not None), "%s: signature of %s not understood" % (fn.loc, fn.name))
+            x = RxExec(tu)
+            fam = rank_family(rng)
+            got = {}
+            if rf is not None:
+                for v in fam:
+                    r = x.invoke(rf, None, [("val", v)])
+                    if not isinstance(r, int) or isinstance(r, bool):
+                        raise dtable.Undecidable("%s: rank_of_int(%d) does not evaluate to an integer" % (rf.loc, v))
+                    got[v] = r
+                    if r != v - rng[0]:
+                        prev = [w for w in fam if w < v and got.get(w) is not None and got[w] >= r]
+                        more = (": rank_of_int(%d) = %d is not smaller, the order of the keys is not preserved" % (prev[-1], got[prev[-1]])) if prev else ""
+                        ck.violation("RANK-TABLE", rf.qname, "%s:rank:%d" % (T.replace(" ", "_"), v),
+                                     "rank_of_int(%d) = %d for %s, expected %d (the number of values of the type that are smaller)%s" % (v, r, T, v - rng[0], more), rf.loc)
+                        return
+            if inv is not None:
+                for v in fam:
+                    r = v - rng[0]
+                    back = x.invoke(inv, None, [("val", got.get(v, r))])
+                    if back != v:
+                        ck.violation("RANK-TABLE", inv.qname, "%s:inverse:%d" % (T.replace(" ", "_"), v),
+                                     "int_at_rank(%s%d) = %s for %s, expected %d: int_at_rank is not the inverse of rank_of_int"
+                                     % ("rank_of_int(%d) = " % v if rf is not None else "", got.get(v, r), back, T, v), inv.loc)
+                        return
+            ck.ok("RANK-TABLE", tag, "%s on %d values (0, +-1, extremes and their neighbours, around the powers of two): rank = x - min, strictly monotone%s"
+                  % ("rank_of_int" if rf is not None else "int_at_rank", len(fam), "; int_at_rank is the inverse" if inv is not None and rf is not None else ""))
+        n += 1
+        ck.guarded(lambda one=one, fn=fn: rx_guard(ck, "RANK-TABLE", fn, (fn.rtargs or ["?"])[0].replace(" ", "_"), one))
+    return n
+
+
+# ---------------------------------------------------------------- bucket arithmetic
+def bucket_reference(x, limit, radix_bits):
+    """the documented bucket of key x under the insertion limit: 0 for the limit itself, else row * (Radix - 1) + digit with
+    row = position of the highest radix digit in which x and the limit differ, digit = that digit of x (never 0 in a row
+    above the first since x > limit; so each row has Radix - 1 buckets, matching lower_bound() and num_buckets)"""
+    if x == limit:
+        return 0
+    row = ((x ^ limit).bit_length() - 1) // radix_bits
+    return row * ((1 << radix_bits) - 1) + ((x >> (radix_bits * row)) & ((1 << radix_bits) - 1))
+
+
+def bucket_family(bits, radix):
+    top = (1 << bits) - 1
+    ds, p = {0, top, top >> 1, (top >> 1) + 1}, 1
+    while p <= top:
+        ds |= {p - 1, p, p + 1, 2 * p, p * (radix - 1), p * radix - 1}
+        p *= radix
+    limits = {0, 1, radix - 1, radix, radix + 1, radix * radix - 1, radix * radix, radix * radix + radix + 1, top >> 1, (top >> 1) + 1,
+              top - radix * radix, top - radix, top - 1, top, top // 3, top - top // 3}
+    limits = sorted(v for v in limits if 0 <= v <= top)
+    return limits, sorted(d for d in ds if 0 <= d <= top)
+
+
+def check_bucket_index(ck, tu):
+    """BUCKET-INDEX: BucketComputation<Radix, Int>::operator()(x, limit) of every instantiation is evaluated for limits and
+    keys x = limit + d around the powers of the radix and the extremes of Int, and compared with the documented bucket"""
+    n = 0
+    REC = "tlx::radix_heap_detail::BucketComputation"
+    for fn in tu.find(record=REC):
+        if fn.name != "operator()" or fn.body is None:
+            continue
+
+        def one(fn=fn):
+            radix = rx_int_arg(fn.rtargs[0]) if len(fn.rtargs) == 2 else None
+            rng = rx_key_range(fn.rtargs[1]) if radix else None
+            ck.require(radix and radix >= 2 and radix & (radix - 1) == 0 and rng[0] == 0 and len(fn.params) == 2,
+                       "%s: BucketComputation<%s> not understood" % (fn.loc, ",".join(fn.rtargs)))
+            bits, rb = rng[1].bit_length(), radix.bit_length() - 1
+            recs = [r for r in tu.records if r["qname"] == REC and r.get("targs") == fn.rtargs]
+            nb = [s_.get("val") for r in recs for s_ in r.get("statics", []) if s_["name"] == "num_buckets" and s_.get("val") is not None]
+            if len(nb) != 1:
+                raise dtable.Undecidable("%s: number of buckets of BucketComputation<%s> not found" % (fn.loc, ",".join(fn.rtargs)))
+            nb = int(nb[0])
+            tag = "BucketComputation<%s>" % ",".join(fn.rtargs)
+            x = RxExec(tu)
+            this = RxObj(REC)
+            limits, ds = bucket_family(bits, radix)
+            cache = {}
+
+            def idx(key, lim):
+                if (key, lim) not in cache:
+                    r = x.invoke(fn, this, [("val", key), ("val", lim)])
+                    if not isinstance(r, int) or isinstance(r, bool):
+                        raise dtable.Undecidable("%s: bucket of (%d, %d) does not evaluate to an integer" % (fn.loc, key, lim))
+                    cache[(key, lim)] = r
+                return cache[(key, lim)]
+
+            def bad(what, key, lim, msg):
+                ck.violation("BUCKET-INDEX", fn.qname, "%s:%s" % (tag, what),
+                             "bucket(x=%d, insertion_limit=%d) = %d, documented: %d (row %d of %d-bit digits): %s"
+                             % (key, lim, idx(key, lim), bucket_reference(key, lim, rb), ((key ^ lim).bit_length() - 1) // rb if key != lim else 0, rb, msg), fn.loc)
+            evals, differs = 0, None
+            for lim in limits:
+                keys = sorted({lim + d for d in ds if lim + d <= rng[1]})
+                for key in keys:
+                    g = idx(key, lim)
+                    evals += 1
+                    if g != bucket_reference(key, lim, rb) and differs is None:
+                        differs = (key, lim)
+                if differs is None:
+                    continue
+                # the layout differs from the documented one: look for a necessary condition that is violated
+                vals = [(key, idx(key, lim)) for key in keys]
+                for key, g in vals:
+                    if not 0 <= g < nb:
+                        return bad("range", key, lim, "outside the %d buckets (mins_ / buckets_data_ are indexed with it)" % nb)
+                for (k1, g1), (k2, g2) in zip(vals, vals[1:]):
+                    if g1 > g2:
+                        return bad("monotone", k2, lim, "the smaller key %d is put into the later bucket %d: the first non-empty bucket does not hold the minimum" % (k1, g1))
+                first_row = {}
+                for key, g in vals:
+                    if g < radix and first_row.setdefault(g, key) != key:
+                        return bad("first-row", key, lim, "shares bucket %d of the first row with key %d: top() takes any element of that bucket for the minimum"
+                                   % (g, first_row[g]))
+                groups = {}
+                for key, g in vals:
+                    groups.setdefault(g, []).append(key)
+                for g, ks in sorted(groups.items()):
+                    if g < radix:
+                        continue
+                    m = min(ks)
+                    for key in ks:
+                        if idx(key, m) >= g:
+                            return bad("progress", key, m, "when bucket %d (filled under limit %d) is redistributed with its minimum %d as the new limit, this key "
+                                       "does not move to an earlier bucket" % (g, lim, m))
+                    for key, g2 in vals:
+                        if g2 > g and idx(key, m) != g2:
+                            return bad("stable", key, m, "the key was put into bucket %d under limit %d; after the limit moved to %d (minimum of the earlier bucket %d) "
+                                       "it belongs to another bucket, the order of the buckets is lost" % (g2, lim, m, g))
+            if differs is not None:
+                raise dtable.Undecidable("%s: bucket(x=%d, limit=%d) = %d differs from the documented bucket %d, but range / monotonicity / single-key first row / "
+                                         "redistribution hold on the evaluated family: a different bucket layout cannot be decided"
+                                         % (fn.loc, differs[0], differs[1], idx(*differs), bucket_reference(differs[0], differs[1], rb)))
+            ck.ok("BUCKET-INDEX", tag, "%d (key, limit) pairs around the powers of %d and the extremes of the %d-bit key: row = highest differing digit, "
+                  "column = that digit, below %d buckets, monotone in the key" % (evals, radix, bits, nb))
+            if not hasattr(tu, "c13_bucket_ok"):
+                tu.c13_bucket_ok = {}
+            tu.c13_bucket_ok[fn.did] = set(x.called)
+        n += 1
+        ck.guarded(lambda one=one, fn=fn: rx_guard(ck, "BUCKET-INDEX", fn, "BucketComputation<%s>" % ",".join(fn.rtargs), one))
+    return n
+
+
+# ---------------------------------------------------------------- histories of one RadixHeap instantiation on the model
+class RadixModel:
+    """one RadixHeap<pair<K, D>, PairKeyExtract, K, Radix> object on the model, driven through its public member functions"""
+    FIELDS = ("size_", "mins_", "filled_", "buckets_data_")
+
+    def __init__(self, tu, rt, fns):
+        self.tu, self.rt, self.fns = tu, rt, fns
+        self.x = RxExec(tu)
+        head, pargs = rx_targs(rt[0]) if rt else (None, None)
+        self.radix = rx_int_arg(rt[3]) if len(rt) == 4 else None
+        if head != "std::pair" or not pargs or len(pargs) != 2 or rx_bare(pargs[0]) != rx_bare(rt[2]) or not self.radix or rx_bare(pargs[1]) not in RX_ITY:
+            raise dtable.Undecidable("RadixHeap<%s>: only heaps of std::pair<key, integer> with the pair's first member as the key are modelled" % ", ".join(rt))
+        self.vty, self.kty = rt[0], rt[2]
+        self.krng = rx_key_range(self.kty)
+        self.top_rank = self.krng[1] - self.krng[0]
+        self.tag = "RadixHeap<%s,%d>" % (rx_bare(self.kty), self.radix)
+        recs = [r for r in tu.records if r["qname"] == RH and r.get("targs") == rt]
+        if len(recs) != 1:
+            raise dtable.Undecidable("%s: record of the instantiation not found" % self.tag)
+        self.rec = recs[0]
+        self.obj = None
+        self.fresh = None
+
+    def fn(self, name, pred=None):
+        c = [f for f in self.fns.get(name, []) if f.body is not None and (pred is None or pred(f))]
+        return c[0] if c else None
+
+    def construct(self):
+        ctors = [f for f in self.fns.get("RadixHeap", []) if f.kind == "ctor" and f.body is not None and not f.d.get("copy_ctor") and not f.d.get("move_ctor")
+                 and not (len(f.params) == 1 and rx_bare(f.params[0].get("ty")) == rx_bare(self.rec.get("full")))]
+        if len(ctors) != 1 or len(ctors[0].params) > 1:
+            raise dtable.Undecidable("%s: constructor not found" % self.tag)
+        c = ctors[0]
+        self.obj = RxObj(self.rec.get("full") or RH)
+        for f in self.rec.get("fields", []):
+            self.obj.fields[f["name"]] = rx_default(f["ty"], False)
+        self.x.invoke(c, self.obj, [("val", rx_default(p["ty"], True)) for p in c.params])
+        for f in self.FIELDS:
+            if f not in self.obj.fields:
+                raise dtable.Undecidable("%s: state field %s not found" % (self.tag, f))
+        b, m, fl = self.obj.fields["buckets_data_"], self.obj.fields["mins_"], self.obj.fields["filled_"]
+        if not (isinstance(b, RxArr) and all(isinstance(v, RxVec) for v in b.items) and isinstance(m, RxArr) and len(m.items) == len(b.items)
+                and isinstance(fl, RxBits) and fl.n == len(b.items)):
+            raise dtable.Undecidable("%s: buckets_data_ / mins_ / filled_ are not an array of vectors, an array of ranks and a BitArray of one size" % self.tag)
+        return c
+
+    def state(self):
+        return {k: rx_freeze(v) for k, v in self.obj.fields.items()}
+
+    def elements(self):
+        return [[(p.first, p.second) for p in v.items] for v in self.obj.fields["buckets_data_"].items]
+
+    def call(self, f, vals):
+        return self.x.invoke(f, self.obj, [("val", v) for v in vals])
+
+    def pair(self, key, data):
+        return self.x.construct(self.vty, [key, data], None)
+
+    def inserters(self):
+        """[(label, function, argument builder(key, data) -> values or None if the key does not fit the parameter types)]"""
+        out = []
+        for f in self.fns.get("push", []):
+            if f.body is not None and len(f.params) == 1:
+                out.append(("push", f, lambda key, data: [self.pair(key, data)]))
+        for f in self.fns.get("emplace", []):
+            if f.body is not None and len(f.params) == 3 and all(rx_bare(p["ty"]) in RX_ITY for p in f.params):
+                def build(key, data, f=f):
+                    if self.x.conv(key, f.params[1]["ty"]) != key or self.x.conv(data, f.params[2]["ty"]) != data:
+                        return None
+                    return [key, key, data]
+                out.append(("emplace<%s>" % rx_bare(f.params[1]["ty"]), f, build))
+        for f in self.fns.get("emplace_keyfirst", []):
+            if f.body is not None and len(f.params) == 2 and all(rx_bare(p["ty"]) in RX_ITY for p in f.params):
+                out.append(("emplace_keyfirst", f, lambda key, data, f=f: [key, data] if self.x.conv(data, f.params[1]["ty"]) == data else None))
+        return out
+
+
+def radix_histories(radix, top, thorough):
+    """monotone histories over ranks 0..top (rank = key - min of the key type): ('ins', rank) | 'top' | 'pop' | 'peek' |
+    'swap' | 'clear' | 'drain'.  No inserted rank is below the minimum the heap showed last (top / pop / swap)."""
+    R, mid = radix, top // 2 + 1                 # mid: the rank of key 0 of a signed type
+    clip = lambda v: max(0, min(top, v))
+    H = []
+    # extremes of the key type and the values around zero, drained with every observer
+    H.append([("ins", r) for r in (top, 0, top - 1, 1, mid, mid - 1, mid + 1, R, R * R, R - 1)] + ["peek", "top", "pop", "peek", "pop", "top", "pop", "drain"])
+    # reorganisation of a bucket above the first row, a drained bucket filled again, clear() in the middle, keys below the old limit afterwards
+    a = R * R
+    H.append([("ins", r) for r in (a + 1, a + R, a + 2 * R + 1, clip(a * R + 5), 3)] + ["pop", "pop", ("ins", a + R), ("ins", a + R + 1), ("ins", a + 1), "top", "pop",
+             ("ins", a + 2), "pop", "top", "clear", ("ins", 1), ("ins", R), ("ins", 0), ("ins", a + R), ("ins", 2), "top", "pop", "top", "drain"])
+    # equal keys, removal of a whole bucket
+    H.append([("ins", r) for r in (5, 5, 5, R + 5, 5, a)] + ["peek", "swap", ("ins", R + 5), ("ins", R + 5), ("ins", R + 6), "top", "swap", "pop", "drain", "clear", ("ins", 0), "pop"])
+    # the upper end of the key range, drained by pop() alone
+    H.append([("ins", clip(r)) for r in (top, top, top - 1, top - R, top - a, top - a - 1)] + ["drain"])
+    # a heap of one element, used again after it ran empty; first-row bucket other than 0 becomes the current one, then clear()
+    H.append([("ins", mid), "top", "pop", ("ins", mid), "pop", ("ins", mid + 1), ("ins", mid + 2), "top", "pop", "top", "clear", ("ins", 2), ("ins", 0), "top", "drain"])
+    # generated histories (fixed linear congruential sequence)
+    seed = 12345
+    for hno in range(6 if thorough else 3):
+        h, floor, held = [], 0, []
+        for _ in range(26):
+            seed = (seed * 1103515245 + 12345) % (1 << 31)
+            c = (seed >> 8) % 100
+            if not held or c < 52:
+                seed = (seed * 1103515245 + 12345) % (1 << 31)
+                d = (0, 1, R - 1, R, R + 1, a, a - 1, a * R, 2, (seed >> 12) % (4 * a), top // 4)[(seed >> 4) % 11]
+                r = clip(floor + d)
+                h.append(("ins", r))
+                held.append(r)
+            elif c < 66:
+                h.append("top")
+                floor = min(held)
+            elif c < 90:
+                h.append("pop")
+                floor = min(held)
+                held.remove(floor)
+            elif c < 96:
+                h.append("peek")
+            else:
+                h.append("clear")
+                floor, held = 0, []
+        H.append(h + ["drain"])
+    return H
+
+
+def check_radix_model(ck, tu, thorough=False):
+    """RADIX-VALUE / RADIX-ORDER / CLEAR-STATE: histories of every RadixHeap instantiation on the model"""
+    insts = {}
+    for f in tu.find(record=RH):
+        insts.setdefault(tuple(f.rtargs), {}).setdefault(f.name, []).append(f)
+    ck.require(insts, "RadixHeap not instantiated")
+    for rt, fns in insts.items():
+        anchor = (fns.get("push") or fns.get("emplace") or fns.get("pop") or next(iter(fns.values())))[0]
+        ck.guarded(lambda rt=rt, fns=fns, anchor=anchor: rx_guard(ck, "RADIX-ORDER", anchor, "RadixHeap<%s>" % ",".join(rt[2:]).replace(" ", "_"),
+                                                                    lambda: radix_model_instance(ck, tu, list(rt), fns, anchor, thorough)))
+    return len(insts)
+
+
+def radix_model_instance(ck, tu, rt, fns, anchor, thorough):
+    M = RadixModel(tu, rt, fns)
+    tag = M.tag
+    reported = set()
+    stats = {"ops": 0, "ins": 0, "del": 0, "clears": 0, "hist": 0}
+    used = {}
+
+    def bad(rule, fn, what, msg):
+        if (rule, what) not in reported:
+            reported.add((rule, what))
+            ck.violation(rule, (fn or anchor).qname, "%s:%s" % (tag, what), msg, (fn or anchor).loc)
+
+    kmin = M.krng[0]
+    ins = M.inserters()
+    pop_f, top_f, clear_f = M.fn("pop", lambda f: not f.params), M.fn("top", lambda f: not f.params), M.fn("clear", lambda f: not f.params)
+    peek_f, size_f, empty_f = M.fn("peak_top_key", lambda f: not f.params), M.fn("size", lambda f: not f.params), M.fn("empty", lambda f: not f.params)
+    swap_f = M.fn("swap_top_bucket", lambda f: len(f.params) == 1)
+    if not ins or pop_f is None:
+        raise dtable.Undecidable("%s: no push() / emplace() or no pop() instantiated: histories cannot be evaluated" % tag)
+
+    def trace(hist, upto):
+        return " ".join(("%s(%d)" % (o[0], o[1] + kmin)) if isinstance(o, tuple) else o for o in hist[:upto + 1])[-300:]
+
+    for hno, hist in enumerate(radix_histories(M.radix, M.top_rank, thorough)):
+        ctor = M.construct()
+        if M.fresh is None:
+            M.fresh = M.state()
+        held = []                    # (key, data) the heap must hold
+        serial = 0
+        ok_hist = True
+
+        def ops(hist=hist):
+            for i, o in enumerate(hist):
+                if o == "drain":
+                    while held:
+                        yield i, "pop"
+                else:
+                    yield i, o
+        for pos, op in ops():
+            here = lambda: trace(hist, pos)
+            if not held and op in ("top", "pop", "peek", "swap"):
+                continue              # not defined on an empty heap
+            kind = op[0] if isinstance(op, tuple) else op
+            before = M.state()
+            want_min = min(k for k, d in held) if held else None
+            fn_used, ret, out_vec = None, None, None
+            try:
+                if kind == "ins":
+                    key = op[1] + kmin
+                    serial += 1
+                    cands = [(lab, f, b(key, serial)) for lab, f, b in ins]
+                    cands = [c for c in cands if c[2] is not None]
+                    if not cands:
+                        raise dtable.Undecidable("%s: no insertion function takes key %d" % (tag, key))
+                    lab, fn_used, vals = cands[(serial + hno) % len(cands)]
+                    used[lab] = used.get(lab, 0) + 1
+                    ret = M.call(fn_used, vals)
+                    held.append((key, serial))
+                    stats["ins"] += 1
+                elif kind == "top":
+                    fn_used = top_f
+                    if top_f is None:
+                        continue
+                    ret = M.call(top_f, [])
+                    ret = M.x.load(ret.lv, None) if isinstance(ret, RxRef) else ret
+                elif kind == "peek":
+                    fn_used = peek_f
+                    if peek_f is None:
+                        continue
+                    ret = M.call(peek_f, [])
+                elif kind == "pop":
+                    fn_used = pop_f
+                    M.call(pop_f, [])
+                    stats["del"] += 1
+                elif kind == "swap":
+                    fn_used = swap_f or pop_f
+                    if swap_f is None:
+                        M.call(pop_f, [])
+                    else:
+                        out_vec = RxVec(M.vty)
+                        M.call(swap_f, [out_vec])
+                    stats["del"] += 1
+                elif kind == "clear":
+                    fn_used = clear_f
+                    if clear_f is None:
+                        continue
+                    M.call(clear_f, [])
+                    stats["clears"] += 1
+                    held = []
+            except RxUB as u:
+                bad("RADIX-ORDER", fn_used, "%s:undefined" % kind, "history %s: %s() reaches undefined behaviour on the model: %s" % (here(), kind if kind != "ins" else fn_used.name, u.msg))
+                ok_hist = False
+                break
+            stats["ops"] += 1
+            if kind != "ins":
+                lab = "pop" if kind == "swap" and swap_f is None else {"peek": "peak_top_key", "swap": "swap_top_bucket"}.get(kind, kind)
+                used[lab] = used.get(lab, 0) + 1
+            # ---- contents: the heap holds exactly what the history put in and did not take out
+            buckets = M.elements()
+            flat = sorted(e for b in buckets for e in b)
+            if kind == "top":
+                if not isinstance(ret, RxPair) or (ret.first, ret.second) not in held or ret.first != want_min:
+                    got = (ret.first, ret.second) if isinstance(ret, RxPair) else ret
+                    bad("RADIX-ORDER", fn_used, "top", "history %s: top() yields %s, the smallest key held is %d" % (here(), got, want_min))
+                    ok_hist = False
+                    break
+            if kind == "peek" and ret != want_min:
+                bad("RADIX-ORDER", fn_used, "peak_top_key", "history %s: peak_top_key() = %s, the smallest key held is %d" % (here(), ret, want_min))
+                ok_hist = False
+                break
+            if kind in ("pop", "swap"):
+                gone = list(held)
+                for e in flat:
+                    if e in gone:
+                        gone.remove(e)
+                taken = [(p.first, p.second) for p in out_vec.items] if out_vec is not None else None
+                if len(flat) + len(gone) != len(held) or not gone or (out_vec is None and len(gone) != 1) or any(k != want_min for k, d in gone) \
+                        or (taken is not None and sorted(taken) != sorted(gone)):
+                    bad("RADIX-ORDER", fn_used, kind, "history %s: %s() removes %s%s, expected %s with the smallest key %d; %d elements remain of %d"
+                        % (here(), "swap_top_bucket" if out_vec is not None else "pop", gone, (" and hands out %s" % taken) if taken is not None else "",
+                           "elements" if out_vec is not None else "one element", want_min, len(flat), len(held)))
+                    ok_hist = False
+                    break
+                held = [e for e in held if e not in gone]
+            if flat != sorted(held):
+                bad("RADIX-ORDER", fn_used, "%s:contents" % kind, "history %s: after %s() the buckets hold %s, expected %s" % (here(), fn_used.name, flat[:8], sorted(held)[:8]))
+                ok_hist = False
+                break
+            for f, name, want in ((size_f, "size", len(held)), (empty_f, "empty", not held)):
+                if f is not None:
+                    g = M.call(f, [])
+                    if g != want:
+                        bad("RADIX-ORDER", f, name, "history %s: %s() = %s with %d elements held" % (here(), name, g, len(held)))
+                        ok_hist = False
+            # ---- the fields that describe the buckets follow them exactly
+            F = M.obj.fields
+            delta = len(held) - (sum(len(b) for b in before["buckets_data_"]))
+            if F["size_"] != len(held):
+                bad("RADIX-VALUE", fn_used, "%s:size_" % kind, "history %s: %s() changes size_ from %s to %s while the number of stored elements changes by %+d to %d"
+                    % (here(), fn_used.name, before["size_"], F["size_"], delta, len(held)))
+                ok_hist = False
+            nonempty = {i for i, b in enumerate(buckets) if b}
+            if F["filled_"].bits != nonempty:
+                i = min(F["filled_"].bits ^ nonempty)
+                bad("RADIX-VALUE", fn_used, "%s:filled_" % kind, "history %s: after %s() bit %d of filled_ is %s, bucket %d holds %d elements"
+                    % (here(), fn_used.name, i, "set" if i in F["filled_"].bits else "clear", i, len(buckets[i])))
+                ok_hist = False
+            for i in sorted(nonempty):
+                want = min(k for k, d in buckets[i]) - kmin
+                if F["mins_"].items[i] != want:
+                    old = before["mins_"][i]
+                    bad("RADIX-VALUE", fn_used, "%s:mins_" % kind, "history %s: after %s() mins_[%d] = %s (was %s), the smallest rank among the %d keys of bucket %d is %d"
+                        % (here(), fn_used.name, i, F["mins_"].items[i], old, len(buckets[i]), i, want))
+                    ok_hist = False
+                    break
+            # ---- clear() leaves the state the constructor leaves
+            if kind == "clear":
+                now = M.state()
+                for name in sorted(M.fresh):
+                    if M.fresh[name] != now.get(name):
+                        a, b = M.fresh[name], now.get(name)
+                        if isinstance(a, tuple) and isinstance(b, tuple) and len(a) == len(b):
+                            j = [i for i in range(len(a)) if a[i] != b[i]][0]
+                            name_, a, b = "%s[%d]" % (name, j), a[j], b[j]
+                        else:
+                            name_ = name
+                        bad("CLEAR-STATE", clear_f, name, "history %s: after clear() %s = %s, the constructor leaves %s"
+                            % (here(), name_, sorted(b) if isinstance(b, frozenset) else b, sorted(a) if isinstance(a, frozenset) else a))
+                        ok_hist = False
+            if not ok_hist:
+                break
+        if held and ok_hist:
+            raise dtable.Undecidable("%s: history %d did not run empty on the model" % (tag, hno))
+        stats["hist"] += 1
+    if not any(r == "RADIX-ORDER" for r, w in reported):
+        ck.ok("RADIX-ORDER", tag, "%d histories, %d operations (%s) on the model: top() / peak_top_key() show the smallest key held, pop() / swap_top_bucket() "
+              "remove exactly elements with it, size() / empty() count, nothing is lost; keys include min, max, 0, +-1 of %s"
+              % (stats["hist"], stats["ops"], ", ".join("%s x%d" % kv for kv in sorted(used.items())), rx_bare(M.kty)))
+    if not any(r == "RADIX-VALUE" for r, w in reported):
+        ck.ok("RADIX-VALUE", tag, "after each of %d insertions and %d removals: size_ == number of elements, filled_ == set of non-empty buckets, "
+              "mins_[i] == smallest rank in bucket i" % (stats["ins"], stats["del"]))
+    if stats["clears"] and not any(r == "CLEAR-STATE" for r, w in reported):
+        ck.ok("CLEAR-STATE", tag, "after %d clear() calls in the middle of histories every field equals the state the constructor leaves (%s)"
+              % (stats["clears"], ",".join(sorted(M.fresh))))
+    elif not stats["clears"] and clear_f is None:
+        raise dtable.Undecidable("%s: clear() is not instantiated" % tag)
 
 
 BITS = {"unsigned char": 8, "signed char": 8, "char": 8, "unsigned short": 16, "short": 16, "unsigned int": 32, "int": 32, "unsigned": 32,
@@ -2107,6 +3688,7 @@ def check_clz_width(ck, tu):
     """`W - 1 - clz(v)` is the index of the highest set bit only if W is the bit width of the type clz() actually sees
     (after integer promotion), in every instantiation"""
     n = 0
+    sites = set()
     for fn in tu.functions:
         if fn.body is None or not fn.qname.startswith("tlx::radix_heap_detail::"):
             continue
@@ -2132,6 +3714,19 @@ def check_clz_width(ck, tu):
                              % (width_m1, argty, bits, bits - 1 - width_m1), fn.nloc(z))
             else:
                 ck.ok("CLZ-WIDTH", tag, "%d - clz(%s)" % (width_m1, argty))
+            sites.add(fn.did)
+    # an instantiation of the bucket computation without a `W - 1 - clz(v)` of its own: there is no constant to compare; the bit index
+    # it computes (through whatever helpers, with the widths and promotions of the instantiation) is decided where BUCKET-INDEX
+    # evaluated that very function and confirmed every result
+    for fn in tu.find(record="tlx::radix_heap_detail::BucketComputation"):
+        if fn.name == "operator()" and fn.body is not None and fn.did not in sites:
+            called = getattr(tu, "c13_bucket_ok", {}).get(fn.did)
+            if called is not None:
+                n += 1
+                via = sorted(c for c in called if "clz" in c or "log2" in c)
+                ck.ok("CLZ-WIDTH", "%s<%s>" % (fn.record.split("::")[-1], ",".join(fn.rtargs or [])),
+                      "no `W - 1 - clz(v)` in this instantiation (%s); the bit index is decided by evaluation (BUCKET-INDEX)"
+                      % ("evaluated through " + ", ".join(via) if via else "no count-leading-zeros function is evaluated"))
     return n
 
 
@@ -2143,9 +3738,19 @@ def run(ck):
         "are evaluated as index arithmetic and must be mutually inverse (a parent index that is written out instead is evaluated too: every "
         "division in the heap's member functions must be (x-1)/arity). Addressable heap: every store into heap_ keeps handles_ in step "
         "(or a full re-index loop follows), wholesale replacement of heap_ resets the old handles first, the handles_ growth bound covers "
-        "every key. RadixHeap: every insertion into / emptying of a bucket updates the filled_ bit, mins_ and size_ together; clear() / clear_all() reset "
-        "every mutable state field; build_heap() replaces the contents (BUILD-REPLACES); the bit-index arithmetic of the bucket computation uses the width "
-        "of the type clz() really sees, for 8..64-bit keys (CLZ-WIDTH). Heap order over histories and the bucket arithmetic are not decided.")
+        "every key. build_heap() replaces the contents (BUILD-REPLACES); clear() / clear_all() write every mutable state field (CLEAR-COMPLETE). "
+        "RadixHeap, structurally: every insertion into / emptying of a bucket updates the filled_ bit, mins_ and size_ together (RADIX-COUPLED); "
+        "the bit-index arithmetic of the bucket computation uses the width of the type clz() really sees (CLZ-WIDTH). RadixHeap, by evaluation of "
+        "the instantiated code on a small model with exact C++ integer semantics (no tlx code is run): IntegerRank::rank_of_int is x - min on 0, "
+        "+-1, the extremes and the powers of two of every key type and int_at_rank its inverse (RANK-TABLE); BucketComputation yields the documented "
+        "bucket (row = highest differing radix digit, column = that digit) for keys and limits around the powers of the radix and the extremes, "
+        "below num_buckets and monotone (BUCKET-INDEX); on monotone histories of push/emplace/top/peak_top_key/pop/swap_top_bucket/clear for every "
+        "instantiation (8..64-bit signed and unsigned keys incl. min/max/0/-1, equal keys, clear() in the middle, re-filled buckets) size_, filled_ "
+        "and mins_ have exactly the values the bucket contents require after every operation (RADIX-VALUE), top()/peak_top_key() show the smallest "
+        "key held, pop()/swap_top_bucket() remove only elements with it and nothing is lost (RADIX-ORDER), and clear() leaves the state the "
+        "constructor leaves (CLEAR-STATE). Not decided: heap order of the d-ary heaps over histories (only the local sift decisions are), radix "
+        "histories beyond the evaluated family, radices and key types the witness does not instantiate, BitArray (modelled by its documented "
+        "interface, not checked), lower_bound()/upper_bound() of BucketComputation (never instantiated).")
     arities = ["2"] if ck.tier == "quick" else ["2", "5"]
     # each rule instance runs guarded: one that cannot be decided (exit 2 in the end) does not hide what the others find
     for ar in arities:
@@ -2168,7 +3773,12 @@ def run(ck):
         ck.guarded(lambda: check_clear_complete(ck, tu, "tlx::radix_heap_detail::BitArrayRecursive", method="clear_all"))
         ck.guarded(lambda: check_build_replaces(ck, tu, "tlx::DAryHeap"))
         ck.guarded(lambda: check_build_replaces(ck, tu, AH))
+        ck.guarded(lambda: ck.require(check_rank(ck, tu) >= 6, "IntegerRank::rank_of_int was not found for the key types of the witness"))
+        ck.guarded(lambda: ck.require(check_bucket_index(ck, tu) >= 4, "BucketComputation::operator() was not found for the (radix, key) pairs of the witness"))
         ck.guarded(lambda: ck.require(check_clz_width(ck, tu) >= 4, "the bucket computation of the radix heap (clz of the key difference) was not found for the narrow key types"))
+        if ar == arities[0]:
+            # the radix heap does not depend on the arity of the d-ary heaps: its histories are evaluated on the model once
+            ck.guarded(lambda: ck.require(check_radix_model(ck, tu, ck.tier == "thorough") >= 6, "RadixHeap is not instantiated for the key types of the witness"))
     m = len(arities)
     ck.floor("HEAP-DECISION", 12 * m)
     ck.floor("INDEX-INVERSE", 4 * m)
@@ -2178,3 +3788,9 @@ def run(ck):
     ck.floor("RADIX-COUPLED", 10 * m)
     ck.floor("CLEAR-COMPLETE", 6 * m)
     ck.floor("BUILD-REPLACES", 6 * m)
+    ck.floor("CLZ-WIDTH", 4 * m)
+    ck.floor("RANK-TABLE", 6 * m)
+    ck.floor("BUCKET-INDEX", 4 * m)
+    ck.floor("RADIX-VALUE", 6)
+    ck.floor("RADIX-ORDER", 6)
+    ck.floor("CLEAR-STATE", 6)
